@@ -284,10 +284,11 @@ fn check_bare<C: BT>(name: &str, comps: &[f64], obs: &mut Obs) -> PropResult {
 
 fn check_alpha<C: BT>(name: &str, comps: &[f64], obs: &mut Obs) -> PropResult
 where
-    Alpha<C, C::F>: Clamp + ClampAssign + Copy,
+    Alpha<C, C::F>: Clamp + ClampAssign + Copy + IsWithinBounds<Mask = bool>,
 {
-    // (Alpha<C, f32|f64> has no IsWithinBounds impl on this tree: the impl asks for
-    //  `T: IsWithinBounds`, which the float types do not provide; only the clamp half exists.)
+    // (On the pinned tree Alpha<C, f32|f64> had no usable IsWithinBounds impl - it asked for `T: IsWithinBounds`, which no
+    //  component type provides - and a method call silently fell through Deref to the colour's predicate, ignoring alpha;
+    //  repaired in /repo, see known_findings.txt. The predicate is called on the Alpha type explicitly here.)
     let n = comps.len() - 1;
     let x = C::from_arr(&comps[..n]);
     if x.to_arr().iter().any(|v| !v.is_finite()) {
@@ -308,7 +309,10 @@ where
         (false, false) => "alpha form: both out",
     });
     let xa = Alpha { color: x, alpha: a };
+    let within = <Alpha<C, C::F> as IsWithinBounds>::is_within_bounds(&xa);
+    ensure!(within == (col_within && alpha_within), "Alpha<{}>{:?}: is_within_bounds = {} but the colour is {} its bounds and alpha {} is {} [0, 1]", name, comps, within, if col_within { "within" } else { "outside" }, a64, if alpha_within { "within" } else { "outside" });
     let c = xa.clamp();
+    ensure!(<Alpha<C, C::F> as IsWithinBounds>::is_within_bounds(&c), "Alpha<{}>{:?}: the clamped value does not report itself within bounds", name, comps);
     let want_a = a64.clamp(0.0, 1.0);
     ensure!(same(&c.color.to_arr(), &x.clamp().to_arr()), "Alpha<{}>::clamp: colour {:?} differs from the bare clamp {:?}", name, c.color.to_arr(), x.clamp().to_arr());
     ensure!(Flt::to64(c.alpha) == want_a, "Alpha<{}>::clamp: alpha {} -> {} expected {}", name, a64, Flt::to64(c.alpha), want_a);
@@ -321,6 +325,7 @@ where
     let cc = c.clamp();
     ensure!(same(&cc.color.to_arr(), &c.color.to_arr()) && Flt::to64(cc.alpha) == Flt::to64(c.alpha), "Alpha<{}>: clamp not idempotent", name);
     let mut sl = [xa, c];
+    ensure!(<[Alpha<C, C::F>] as IsWithinBounds>::is_within_bounds(&sl[..]) == within, "[Alpha<{}>]::is_within_bounds differs from the element-wise predicate", name);
     sl[..].clamp_assign();
     ensure!(same(&sl[0].color.to_arr(), &c.color.to_arr()) && Flt::to64(sl[0].alpha) == Flt::to64(c.alpha), "[Alpha<{}>]::clamp_assign differs from clamp", name);
     Ok(())
@@ -452,7 +457,7 @@ fn check_conv<A, B>(names: (&str, &str), comps: &[f64], obs: &mut Obs) -> PropRe
 where
     A: BT,
     B: BT + FromColorUnclamped<A> + FromColor<A> + TryFromColor<A>,
-    Alpha<B, B::F>: FromColorUnclamped<Alpha<A, A::F>> + FromColor<Alpha<A, A::F>> + Clamp + Copy,
+    Alpha<B, B::F>: FromColorUnclamped<Alpha<A, A::F>> + FromColor<Alpha<A, A::F>> + TryFromColor<Alpha<A, A::F>> + Clamp + Copy + IsWithinBounds<Mask = bool>,
     Alpha<A, A::F>: Copy,
 {
     let a = A::from_arr(&comps[..3]);
@@ -490,6 +495,21 @@ where
         let ca = <Alpha<B, B::F>>::from_color(aa);
         ensure!(same(&ua.color.to_arr(), &ca.color.to_arr()) && Flt::to64(ua.alpha) == Flt::to64(ca.alpha), "Alpha<{}>::from_color(Alpha<{}>) differs from unclamped + clamp", names.1, names.0);
         ensure!(same(&ca.color.to_arr(), &clamped), "Alpha<{}>::from_color colour differs from the bare from_color", names.1);
+        // the checked conversion of a transparent colour succeeds exactly when colour and alpha are within bounds
+        let un = <Alpha<B, B::F>>::from_color_unclamped(aa);
+        let al64 = Flt::to64(un.alpha);
+        let want_ok = within && (0.0..=1.0).contains(&al64);
+        match <Alpha<B, B::F>>::try_from_color(aa) {
+            Ok(v) => {
+                ensure!(want_ok, "Alpha<{}>::try_from_color(Alpha<{}>{:?}, alpha {}) = Ok although colour within = {} and alpha = {}", names.1, names.0, a.to_arr(), Flt::to64(al), within, al64);
+                ensure!(same(&v.color.to_arr(), &uv) && Flt::to64(v.alpha) == al64, "Alpha<{}>::try_from_color Ok value differs from the unclamped result", names.1);
+            }
+            Err(e) => {
+                let ev = e.color();
+                ensure!(!want_ok, "Alpha<{}>::try_from_color(Alpha<{}>{:?}, alpha {}) = Err although colour and alpha are within bounds", names.1, names.0, a.to_arr(), Flt::to64(al));
+                ensure!(same(&ev.color.to_arr(), &uv) && Flt::to64(ev.alpha) == al64, "Alpha<{}>::try_from_color error does not carry the unclamped result", names.1);
+            }
+        }
     }
     Ok(())
 }
